@@ -1110,7 +1110,10 @@ def sense_case():
                                  "sense-empty-exchange",
                                  "sense-unsupported-exchange",
                                  "listen-unsupported-exchange",
-                                 "listen-invalid-exchange"])})
+                                 "listen-unsupported-exchange",
+                                 "listen-invalid-exchange"]),
+        # the Type B bitrate of the listen the driver does not support
+        "brty_b": st.sampled_from(["106B", "212B", "424B", "848B"])})
 
 
 def run_sense(case, ctx):
@@ -1190,7 +1193,8 @@ def run_sense(case, ctx):
                           nfc.clf.RemoteTarget("212A"))
             elif case["then"] == "listen-unsupported-exchange":
                 try:        # the driver does not listen as Type B target
-                    clf.listen(nfc.clf.LocalTarget("106B"), 0.01)
+                    clf.listen(nfc.clf.LocalTarget(
+                        case.get("brty_b", "106B")), 0.01)
                 except nfc.clf.UnsupportedTargetError:
                     pass
             elif case["then"] == "listen-invalid-exchange":
